@@ -232,6 +232,31 @@ def rule_builder_byte(ctx: Ctx, rep: Report) -> None:
                f"the leaf comes back with the caller's spelling of the version (`{norm(x)}` unmasked) and input_script_sig adds the parity to it: for an odd version the control byte claims the wrong parity or the wrong version, and the library's own control block does not verify")
 
 
+def rule_spliced_key_size(ctx: Ctx, rep: Report) -> None:
+    """C12.spliced_key_size: an x-only key that is spliced behind a prefix byte
+    (`b"\\x02" + key`) and handed on unchecked is 32 bytes *because the
+    coercion says so*: `bytes_from_octets(key, 32)`. Without the size a 31-byte
+    key is spliced into a 32-byte "compressed key" that libsecp256k1 parses as
+    another x -- an internal key that is not one is answered."""
+    rule = "C12.spliced_key_size"
+    mi = ctx.module(T)
+    n = 0
+    for fi in sorted(mi.functions.values(), key=lambda f: f.qualname):
+        for a in own_nodes(fi.node):
+            if not (isinstance(a, ast.Assign) and isinstance(a.value, ast.Call) and call_name(a.value) == "bytes_from_octets" and isinstance(a.targets[0], ast.Name)):
+                continue
+            nm = a.targets[0].id
+            spliced = [b for b in own_nodes(fi.node) if isinstance(b, ast.BinOp) and isinstance(b.op, ast.Add) and
+                       ((isinstance(b.left, ast.Constant) and isinstance(b.left.value, bytes) and isinstance(b.right, ast.Name) and b.right.id == nm))]
+            if not spliced:
+                continue
+            n += 1
+            sized = len(a.value.args) >= 2 or any(k.arg in ("out_size", "size") for k in a.value.keywords)
+            rep.ob(rule, f"{fi.qualname}:{nm}", sized, fi.where(a), f"coerced to a fixed size ({norm(a.value.args[1]) if len(a.value.args) >= 2 else 'keyword'}) before it is spliced" if sized else
+                   f"`{norm(a)}` takes any length, and `{norm(spliced[0])}` splices it behind a prefix byte: a short key becomes a different 33-byte key instead of being refused")
+    rep.floor(rule, 1)
+
+
 def rule_control(ctx: Ctx, rep: Report) -> None:
     """C12.control: control block size rows and the engine gate (shared with C08)."""
     from rules.C08 import rule_sig_rules
@@ -260,9 +285,12 @@ RULES = [
     ("C12.shapes", rule_shapes),
     ("C12.control", rule_control),
     ("C12.builder_byte", rule_builder_byte),
+    ("C12.spliced_key_size", rule_spliced_key_size),
 ]
 
 CONTROLS = [
+    {"rule": "C12.spliced_key_size", "name": "the internal key is coerced without its size", "module": T,
+     "edit": lambda ctx: M.sub_expr(ctx, f"{T}.output_pubkey_from_merkle_root", M.is_text("bytes_from_octets(internal_pubkey, 32)"), "bytes_from_octets(internal_pubkey)")},
     {"rule": "C12.builder_byte", "name": "the leaf keeps the caller's spelling of its version", "module": T,
      "edit": lambda ctx: M.sub_expr(ctx, f"{T}._tree_helper", M.is_text("leaf_version &= 254"), "pass")},
     {"rule": "C12.tweak", "name": "tweak equal to n accepted", "module": T,
